@@ -1,21 +1,22 @@
 #!/bin/bash
-# Sensitivity sweep: every seeded mutant (seeded/<id>/patch.diff) is applied to a scratch
+# Sensitivity sweep: every mutant of $MUT_DIR (default seeded; selfmut = hand-written self-test mutants) (<dir>/<id>/patch.diff) is applied to a scratch
 # worktree of /repo (never to /repo itself), the quick check of the property it breaks is run
 # against that worktree (VERIF_REPO), and the verdict is recorded in seeded/RESULTS.json.
 # usage: tools/mutants.sh [id ...]     env: MUT_BUDGET_S (default 25)
 cd "$(dirname "$0")/.."
 WT=/var/tmp/sedpack-mut-$$
 ALT=/var/tmp/sedpack-mut-out-$$
-export VERIF_BUILD=/var/tmp/sedpack-mut-build
+export VERIF_BUILD=/var/tmp/sedpack-mut-build-$$
 trap 'git -C /repo worktree remove --force $WT 2>/dev/null; rm -rf $ALT' EXIT
 git -C /repo worktree add -q --detach $WT HEAD || exit 9
 mkdir -p $ALT
-IDS=${@:-$(ls seeded | grep -v RESULTS)}
+DIR=${MUT_DIR:-seeded}
+IDS=${@:-$(ls $DIR | grep -v RESULTS)}
 for id in $IDS; do
-  [ -f seeded/$id/patch.diff ] || continue
+  [ -f $DIR/$id/patch.diff ] || continue
   prop=${id%%-*}
   git -C $WT checkout -q -- . ; git -C $WT clean -qfd
-  if ! git -C $WT apply $PWD/seeded/$id/patch.diff 2>/dev/null; then echo "$id NOAPPLY"; echo "{\"id\":\"$id\",\"result\":\"patch does not apply at HEAD\"}" > $ALT/$id.json; continue; fi
+  if ! git -C $WT apply $PWD/$DIR/$id/patch.diff 2>/dev/null && ! git -C $WT apply -3 $PWD/$DIR/$id/patch.diff 2>/dev/null; then echo "$id NOAPPLY"; echo "{\"id\":\"$id\",\"result\":\"patch does not apply at HEAD\"}" > $ALT/$id.json; continue; fi
   t0=$(date +%s)
   out=$(VERIF_REPO=$WT VERIF_OUT=$ALT VERIF_NO_DETERMINISM=1 VERIF_BUDGET_S=${MUT_BUDGET_S:-25} ./check $prop quick 2>/dev/null | grep -E '^VIOLATION|class=|quick:' | grep -v KNOWN)
   rc=${PIPESTATUS[0]}
@@ -29,19 +30,19 @@ i,prop,verdict,cls,sec,alt=sys.argv[1:7]
 json.dump({"id":i,"check":f"./check {prop} quick","result":verdict,"violation_classes":cls.split(),"seconds":int(sec)},open(f"{alt}/{i}.json","w"))
 PY
 done
-/venv/bin/python - "$ALT" "$(git -C /repo rev-parse --short HEAD)" <<'PY'
+/venv/bin/python - "$ALT" "$(git -C /repo rev-parse --short HEAD)" "$DIR" <<'PY'
 import json,sys,glob,os
-alt,head=sys.argv[1:3]
+alt,head=sys.argv[1:3]; D=sys.argv[3]
 res={}
-if os.path.exists('/verif/seeded/RESULTS.json'):
-    res=json.load(open('/verif/seeded/RESULTS.json'))
+if os.path.exists('/verif/'+D+'/RESULTS.json'):
+    res=json.load(open('/verif/'+D+'/RESULTS.json'))
 for f in sorted(glob.glob(alt+'/*.json')):
     r=json.load(open(f)); r['repo_head']=head; res[r['id']]=r
-    m='/verif/seeded/%s/meta.json'%r['id']
+    m='/verif/'+D+'/%s/meta.json'%r['id']
     if os.path.exists(m):
         meta=json.load(open(m)); meta['caught_by']=[r['check']] if r.get('result')=='CAUGHT' else []; meta['last_sweep']=r
         json.dump(meta,open(m,'w'),indent=1)
-json.dump(res,open('/verif/seeded/RESULTS.json','w'),indent=1,sort_keys=True)
+json.dump(res,open('/verif/'+D+'/RESULTS.json','w'),indent=1,sort_keys=True)
 print(sum(1 for r in res.values() if r.get('result')=='CAUGHT'),"caught of",len(res))
 PY
-rm -rf /var/tmp/sedpack-mut-build
+rm -rf /var/tmp/sedpack-mut-build-$$
